@@ -72,6 +72,9 @@ TRANSPARENT = {
     "std::convert::identity": 0,
     "std::borrow::ToOwned::to_owned": 0,
     "std::iter::IntoIterator::into_iter": 0,
+    # `v.iter()` on a slice / Vec walks the same elements as `for x in &v` (IntoIterator for &Vec): the collection itself
+    "core::slice::<impl [T]>::iter": 0,
+    "core::slice::<impl [T]>::iter_mut": 0,
     "std::future::IntoFuture::into_future": 0,
     "std::boxed::Box::<T>::new": 0,
     "std::boxed::Box::<T>::pin": 0,
@@ -928,6 +931,28 @@ class Body:
                             out.add(conj | c2)
         return out
 
+    def _eq_to_is(self, atom):
+        """`x == Enum::Variant` (derived PartialEq on a field-less enum) where x is a local assigned literal variants in several
+        arms reads as the variant test `x is Variant` - which _lift_is_phi then resolves to the arms' own guards"""
+        if atom[0] != "bool" or atom[1][0] != "call" or len(atom[1][2]) != 2:
+            return atom
+        last = atom[1][1].rsplit("::", 1)[-1]
+        if last not in ("eq", "ne") or "PartialEq" not in atom[1][1]:
+            return atom
+        a, b = atom[1][2]
+        for x, v in ((a, b), (b, a)):
+            if x[0] == "phi" and len(x) > 2 and x[2] is not None and v[0] == "agg" and v[1].startswith("adt:") and not v[3]:
+                alts = set()
+                for alt in x[1]:
+                    if not (alt[0] == "agg" and alt[1].startswith("adt:") and not alt[3]):
+                        return atom
+                    alts.add(alt[1].rsplit("::", 1)[-1])
+                name = v[1].rsplit("::", 1)[-1]
+                positive = (last == "eq") == bool(atom[2])
+                names = frozenset([name]) if positive else frozenset(alts - {name})
+                return ("is", x, names, v[1][len("adt:"):].rsplit("::", 1)[0], atom[3] if len(atom) > 3 else None)
+        return atom
+
     def _lift_is_phi(self, atom, _stack):
         """a variant test on a local assigned in several arms (`let o = match .. { A => None, B => x.field }; match o {..}`,
         the inlined form of `opt.and_then(..)` / `.map(..)` chains): replaced by the arms' own guards - an arm that assigns
@@ -981,6 +1006,7 @@ class Body:
                 if a == b:
                     # self-dependence of a loop header
                     continue
+                atom = self._eq_to_is(atom)
                 lifted = self._lift_bool_phi(atom, _stack)
                 if lifted is None:
                     lifted = self._lift_is_phi(atom, _stack)
